@@ -36,7 +36,7 @@ I = z3.IntSort(); Rl = z3.RealSort()
 DOTS = {}          # (id(Q), id(R)) -> (function, Q, R)
 
 
-def prove(ex, st, node, text, premise, timeout=15000):
+def prove(ex, st, node, text, premise, timeout=20000):
     r, _ = check_unsat([p for p in st.pc if is_z(p)] + [z3.Not(premise)], timeout=timeout, try_cvc5=False)
     ex.obligations.append(Obligation('rule-premise', text, getattr(node, 'lineno', 0), True if r == 'unsat' else None,
                                      '' if r == 'unsat' else 'premise of a sum rule not proved (only costs completeness)'))
@@ -128,6 +128,79 @@ def dot_of(ex, st, node, Q, R):
     return D
 
 
+GRAMS = {}
+CJ = z3.Function('cj', Rl, Rl)       # complex conjugation on ring elements: only cj(0) = 0 and cj(1) = 1 are used
+
+
+def gram_of(ex, st, node, Q):
+    """Gram(c, c', lo, hi) = sum_{lo <= i < hi} cj(Q[i, c]) * Q[i, c']  (the range-sum rules applied to Q^H and Q)"""
+    if id(Q) in GRAMS:
+        return GRAMS[id(Q)][0]
+    G = z3.Function(f'Gram{next(_n)}', I, I, I, I, Rl)
+    GRAMS[id(Q)] = (G, Q)
+    st.pc += generic_axioms(G)
+    i, c, d, a, b = z3.Ints('i c d a b')
+    o = (Q.origin or ('?',))[0]
+    if o == 'zeros':
+        st.pc.append(z3.ForAll([c, d, a, b], G(c, d, a, b) == 0))
+        return G
+    if o == 'view':
+        _, base, f0, f1, how = Q.origin
+        Gb = gram_of(ex, st, node, base)
+        if how[0][0] == 'shift':
+            s0 = how[0][1]
+            if prove(ex, st, node, 'congruence (Gram): view with an offset on the summed axis',
+                     z3.ForAll([i, c], Q.val(i, c) == base.val(i + s0, f1(c)))):
+                st.pc.append(z3.ForAll([c, d, a, b], G(c, d, a, b) == Gb(f1(c), f1(d), a + s0, b + s0)))
+        elif how[0][0] == 'gather' and how[1][0] == 'shift':
+            # (permutation) a sum over the full range [0, m) is invariant under a bijection of [0, m)
+            p = how[0][1]; mrows = zint(base.shape[0]); inv = p.tags.get('inv'); s1 = how[1][1]
+            if inv is not None and prove(ex, st, node, 'permutation (Gram): the row index array is a bijection of [0, m) and the columns are not re-indexed',
+                                         z3.And(zint(p.n) == mrows, s1 == 0,
+                                                z3.ForAll([i], z3.Implies(rng(i, mrows), z3.And(rng(p.a(i), mrows), inv(p.a(i)) == i, rng(inv(i), mrows), p.a(inv(i)) == i))),
+                                                z3.ForAll([i, c], Q.val(i, c) == base.val(p.a(i), c)))):
+                st.pc.append(z3.ForAll([c, d], G(c, d, 0, mrows) == Gb(c, d, 0, mrows)))
+        return G
+    if o == 'store':
+        _, Qb, (c0, c1, o0, o1, key), v = Q.origin
+        Gb = gram_of(ex, st, node, Qb)
+        innew = lambda t: c1(t); inrow = lambda t: c0(t)
+        if getattr(v, 'origin', None) and v.origin[0] == 'lapack':
+            info = v.origin[1]
+            lo = o1; i0 = o0; i1 = o0 + zint(v.shape[0])
+            # (split) at the rows of the block
+            mrows = zint(Q.shape[0])
+            if prove(ex, st, node, 'split (Gram): the rows of the block lie inside the matrix', z3.And(0 <= i0, i0 <= i1, i1 <= mrows)):
+                st.pc.append(z3.ForAll([c, d], G(c, d, 0, mrows) == G(c, d, 0, i0) + G(c, d, i0, i1) + G(c, d, i1, mrows)))
+            # (congruence) columns outside the stored range
+            if prove(ex, st, node, 'congruence (Gram): columns outside the stored block are unchanged',
+                     z3.ForAll([i, c], z3.Implies(z3.Not(innew(c)), Q.val(i, c) == Qb.val(i, c)))):
+                st.pc.append(z3.ForAll([c, d, a, b], z3.Implies(z3.And(z3.Not(innew(c)), z3.Not(innew(d))), G(c, d, a, b) == Gb(c, d, a, b))))
+            # (vanish) a new column is zero outside the rows of the block
+            if prove(ex, st, node, 'vanish (Gram): new columns are zero outside the rows of the block',
+                     z3.ForAll([i, c], z3.Implies(z3.And(innew(c), z3.Not(inrow(i))), Q.val(i, c) == 0))):
+                st.pc.append(z3.ForAll([c, d, a, b], z3.Implies(z3.And(z3.Or(innew(c), innew(d)), z3.Or(b <= i0, a >= i1)), G(c, d, a, b) == 0)))
+            # (K_qr through congruence) both columns new, summed over the rows of the block: Qs^H Qs = I
+            if prove(ex, st, node, 'congruence (Gram): the stored block holds the isometry returned by np.linalg.qr',
+                     z3.And(z3.ForAll([i, c], z3.Implies(z3.And(inrow(i), innew(c)), Q.val(i, c) == v.val(i - i0, c - lo))),
+                            i1 - i0 == info['p'], z3.ForAll([i], inrow(i) == z3.And(i >= i0, i < i1)))):
+                st.pc.append(z3.ForAll([c, d], z3.Implies(z3.And(innew(c), innew(d)), G(c, d, i0, i1) == z3.If(c == d, 1, 0))))
+            # (vanish) one column new, the other old: the old column is zero on the rows of the block
+            if prove(ex, st, node, 'vanish (Gram): earlier columns are zero on the rows of the block',
+                     z3.ForAll([i, c], z3.Implies(z3.And(inrow(i), z3.Not(innew(c)), c >= 0), Q.val(i, c) == 0)), timeout=40000):
+                st.pc.append(z3.ForAll([c, d], z3.Implies(z3.And(z3.Xor(innew(c), innew(d)), c >= 0, d >= 0), G(c, d, i0, i1) == 0)))
+            return G
+        if isinstance(v, int) and Qb.origin and Qb.origin[0] == 'zeros':
+            # unit column written into a zero matrix: Q[r, s] = v
+            r0, s0 = o0, o1
+            if prove(ex, st, node, 'single term (Gram): one entry of a zero matrix is set',
+                     z3.ForAll([i, c], Q.val(i, c) == z3.If(z3.And(i == r0, c == s0), z3.RealVal(v), 0))):
+                st.pc.append(z3.ForAll([c, d, a, b], z3.Implies(z3.Or(c != s0, d != s0, b <= r0, a > r0), G(c, d, a, b) == 0)))
+                st.pc.append(G(s0, s0, r0, r0 + 1) == CJ(z3.RealVal(v)) * z3.RealVal(v))
+            return G
+    return G
+
+
 def value_invariant(env, ex, st, node=None):
     k = env['#iter']
     Dn = zint(env['D']); q0 = env['q0']; q1 = env['q1']; qis = env['#qis']; A = env['A']
@@ -142,14 +215,27 @@ def value_invariant(env, ex, st, node=None):
         z3.ForAll([i, j], z3.Implies(z3.And(rng(i, m), rng(j, n)),
                                      D(i, j, 0, Dn) == z3.If(z3.And(q0.a(i) == q1.a(j), visited(q0.a(i))), A.val(i, j), 0))),
         z3.ForAll([i, c], z3.Implies(c >= Dn, Q.val(i, c) == 0)),
-        z3.ForAll([c, j], z3.Implies(c >= Dn, R.val(c, j) == 0)))
+        z3.ForAll([c, j], z3.Implies(c >= Dn, R.val(c, j) == 0)),
+        gram_invariant(env, ex, st, node, Q, k, Dn, m, qis))
+
+
+def gram_invariant(env, ex, st, node, Q, k, Dn, m, qis):
+    qi = env.get('qinterm')
+    if not isinstance(qi, IArr):
+        return z3.BoolVal(True)
+    G = gram_of(ex, st, node, Q)
+    i, c, d = z3.Ints('i c d')
+    return z3.And(
+        z3.ForAll([c, d], z3.Implies(z3.And(rng(c, Dn), rng(d, Dn)), G(c, d, 0, m) == z3.If(c == d, 1, 0))),
+        z3.ForAll([i, c], z3.Implies(Q.val(i, c) != 0, Q.nz(i, c))),                       # values live on the support
+        z3.ForAll([c], z3.Implies(rng(c, Dn), z3.And(k > 0, qi.a(c) <= qis.a(k - 1)))))     # charges written so far
 
 
 def run(fn='bond_ops.qr', kind='complex'):
     from . import smt
     smt.EXTERNAL[0] = True
     zqr.TRACK_VALUES[0] = True
-    DOTS.clear()
+    DOTS.clear(); GRAMS.clear()
     try:
         return _run(fn, kind)
     finally:
@@ -166,7 +252,8 @@ def _run(fn, kind):
     Aval = zqr.fresh_val('A')
     A0 = SArr((m, n), kind, zqr.NZ, name='A0', val=Aval, origin=('input',))
     i, j = z3.Ints('i j')
-    requires = [m >= 1, n >= 1,
+    x = z3.Real('x')
+    requires = [CJ(z3.RealVal(0)) == 0, CJ(z3.RealVal(1)) == 1, m >= 1, n >= 1,
                 z3.ForAll([i, j], z3.Implies(z3.And(rng(i, m), rng(j, n), zqr.NZ(i, j)), q0f(i) == q1f(j))),
                 z3.ForAll([i, j], z3.Implies(z3.Not(zqr.NZ(i, j)), Aval(i, j) == 0))]
     solver = Solver()
@@ -203,7 +290,7 @@ def _run(fn, kind):
             out.append(Verdict(f'values: {ob.kind}@{ob.lineno}: {ob.text[:90]}', 'Z', status, ob.detail, 0.0, fn, ob.kind, 'z3'))
     finals = [s for s in states if s.done and s.raised is None and solver.feasible(s.pc)]
     nob = len(ex.obligations)
-    res = []; can = []
+    res = []; can = []; resg = []
     for s in finals:
         try:
             Qm, Rm, q = s.ret
@@ -214,6 +301,10 @@ def _run(fn, kind):
             D = dot_of(ex, s, _N, Qm, Rm)
             goal = z3.ForAll([i, j], z3.Implies(z3.And(rng(i, m), rng(j, n)), D(i, j, 0, Dret) == Aval(i, j)))
             res.append(solver.implied([p for p in s.pc if is_z(p)], goal, final=True))
+            G = gram_of(ex, s, _N, Qm)
+            c_, d_ = z3.Ints('c_ d_')
+            goal2 = z3.ForAll([c_, d_], z3.Implies(z3.And(rng(c_, Dret), rng(d_, Dret)), G(c_, d_, 0, m) == z3.If(c_ == d_, 1, 0)))
+            resg.append(solver.implied([p for p in s.pc if is_z(p)], goal2, final=True))
             # vacuity canary (general path only): the path condition with all derived facts must not be contradictory
             if s is finals[-1]:
                 r_, _ = check_unsat([p for p in s.pc if is_z(p)], timeout=8000, try_cvc5=False)
@@ -227,6 +318,9 @@ def _run(fn, kind):
     status = 'discharged' if res and all(r is True for r in res) else 'undecided'
     out.append(Verdict(f'product_of_the_factors_equals_the_matrix [Q R = A, entry level, {len(res)} return paths]', 'Z', status,
                        'sum rules: vt/lemmas/Sums.lean; K_qr of np.linalg.qr assumed' if status == 'discharged' else f'per path: {res}', 0, fn, 'ensures', 'z3'))
+    statusg = 'discharged' if resg and all(r is True for r in resg) else 'undecided'
+    out.append(Verdict(f'first_factor_has_orthonormal_columns [Q^H Q = I, entry level, {len(resg)} return paths]', 'Z', statusg,
+                       'sum rules: vt/lemmas/Sums.lean; K_qr of np.linalg.qr assumed' if statusg == 'discharged' else f'per path: {resg}', 0, fn, 'ensures', 'z3'))
     out.append(Verdict('product_of_the_factors_equals_the_matrix', 'Z', 'canary-verified' if any(c is True for c in can) else 'canary-ok',
                        'the facts derived by the sum rules are not contradictory on any return path', 0, fn, 'canary', 'z3'))
     tot = time.time() - t0
